@@ -4,13 +4,14 @@ from vlib import core
 
 THEOREMS = ["Props.C20." + t for t in ["prefix_safe_lookup", "table_prefix_safe", "documented_accepted", "table_wellformed",
             "sets_exactly_own", "documented_name_resolves", "slim_disables_deep_equal", "reject_iff",
-            "step_reject_local", "naming_style_keeps_initialisms"]]
+            "step_reject_local", "naming_style_keeps_initialisms", "cmdline_transparent",
+            "cmdline_adds_nothing_unless_nested", "cmdline_value_keeps_equals", "nested_forces_slim"]]
 
 def run(ctx):
     exe = ctx.go_build("c20")
-    ctx.trusted += ["translator harness/cmd/c20 extract (Options(), reflect over Features tags/defaults, README table regexp)",
+    ctx.trusted += ["translator harness/cmd/c20 extract (Options(), reflect over Features tags/defaults, README table regexp, literals of args.checkOptions)",
                     "correspondence harness harness/cmd/c20 run vs tvdriver c20 (exhaustive singles and ordered pairs, random lists)"]
-    ctx.assumptions += ["Go's strings.SplitN/HasPrefix as modelled by splitEq/isPrefix on bytes",
+    ctx.assumptions += ["Go's strings.SplitN/Split/HasPrefix as modelled by splitEq/splitComma/isPrefix on bytes; flag.Parse hands the -g value over unchanged",
                         "naming-style singletons are reset before each case; effective initialisms observed through Identify(\"user_url\")"]
     if exe:
         if ctx.replay:
@@ -39,7 +40,7 @@ def run(ctx):
         st = json.load(open(os.path.join(ctx.work, "stats.json")))
         ctx.cov.update(evaluations=st["evaluations"], distinct_nontrivial=st["distinct_nontrivial"], samples=st["samples"],
                        distribution=st["distribution"], exhaustive=False,
-                       exhaustive_parts="empty list, every option x every spelling (bare,=true,=false,=garbage,=), every ordered pair x 3 spellings each")
+                       exhaustive_parts="empty list, every option x every spelling (bare,=true,=false,=garbage,=), every ordered pair x 3 spellings each; every list both in-process (H) and through the command-line path -g go:... (A)")
         for f in (st.get("oracle_failures") or []):
             ctx.add_violation(f["key"], f["what"], f["input"], f["expected"], f["observed"])
         if drv:
